@@ -1,5 +1,6 @@
 import TrustVerif.Lemmas.C05
 import TrustVerif.Generated.HashUses
+import TrustVerif.Model.C06
 
 /-!
 # C05 — execution and compilation are deterministic and reproducible
@@ -95,6 +96,13 @@ example :
        ⟨3, "C", some 4, none⟩, ⟨4, "M1", some 5, some 2⟩, ⟨4, "M2", some 6, some 2⟩, ⟨4, "G", some 7, some 4⟩] := by
   decide
 
+/-- Non-vacuity of the hypotheses of `c05_pou_index_closed_form` on the same runtime. -/
+example :
+    let r : PouNames := { programs := ["Main", "Aux"], functionBlocks := [("Fb", ["M1", "M2"])],
+                          functions := ["F"], classes := [("C", ["G"])] }
+    (allKeys id r).Nodup ∧ (allKeys id r).length ≤ u32Max := by
+  decide
+
 /-- **Vtable layout** (`method_table_for` with its `method_tables` cache and the local
 `name_to_slot` maps) does not depend on the layout of those maps. -/
 theorem c05_vtable_order_free (L₁ L₂ : Layout String VtVal) (norm : String → String)
@@ -149,14 +157,61 @@ order-free (table regenerated from the sources by `checks/c05_scan.py` on every 
 `.iter()/.keys()/.values()/.drain()/for … in`/unrecognised use breaks this proof and the failing
 row names the file and line. -/
 theorem c05_no_order_exposure :
-    ∀ u ∈ Gen.hashUses, u.hasher = .std → orderFree u.op = true := by
-  have h : usesOk Gen.hashUses = true := by decide
+    ∀ u ∈ Gen.hashUses, u.hasher = .std →
+      orderFree u.op = true ∨ ∃ r ∈ reviewedBenign, r.matchesUse u = true := by
+  have h : usesOk Gen.hashUses = true := by decide +kernel
+  simp only [usesOk, Bool.and_eq_true] at h
   intro u hu hs
-  have := List.all_eq_true.mp h u hu
-  simpa [hs] using this
+  have := List.all_eq_true.mp h.1 u hu
+  simp only [hs, bne_self_eq_false, Bool.false_or, Bool.or_eq_true, List.any_eq_true] at this
+  exact this
 
-/-- The table is not empty and contains the bindings named in the property statement. -/
-example : Gen.hashUses.length > 40 := by decide
+/-- No reviewed exception is used more often than it allows (each is one specific loop). -/
+theorem c05_reviewed_uses_bounded :
+    ∀ r ∈ reviewedBenign, (Gen.hashUses.filter r.matchesUse).length ≤ r.max := by
+  have h : usesOk Gen.hashUses = true := by decide +kernel
+  simp only [usesOk, Bool.and_eq_true] at h
+  intro r hr
+  exact of_decide_eq_true (List.all_eq_true.mp h.2 r hr)
+
+/-- The parser and type-checker crates (trust-syntax, trust-hir) contain no `std` hash container at
+all outside tests (they use `rustc_hash`, which has no per-process seed), so the table above covers
+every `RandomState` of the compile-and-run pipeline. -/
+theorem c05_front_end_std_hash_free : Gen.frontEndStdHash = [] := by decide
+
+/-- **Reviewed use 1** (`for (type_name, policy) in retain_by_type`, harness/config.rs): visiting
+the table in any order gives the same program definitions, because entries with distinct
+normalised type names update distinct programs. -/
+theorem c05_reviewed_retain_overrides_order_free (norm : String → String)
+    (defs : String → Option (List (Option Nat))) (t₁ t₂ : List (String × Nat))
+    (p : t₁.Perm t₂) (hnd : (t₁.map fun e => norm e.1).Nodup) :
+    applyRetainAll norm defs t₁ = applyRetainAll norm defs t₂ := by
+  unfold applyRetainAll
+  apply foldl_perm_of_comm (applyRetain norm) p
+  intro a ha b hb s
+  apply applyRetain_comm
+  by_cases e : norm a.1 = norm b.1
+  · exact Or.inl (inj_of_nodup_map (fun e => norm e.1) hnd a ha b hb e)
+  · exact Or.inr e
+
+example : ([("Main", 1), ("Aux", 2)].map fun (e : String × Nat) => id e.1).Nodup := by decide
+
+/-- **Reviewed use 2** (`frame_locations.retain(pure predicate)`, debug/control.rs): after
+`retain` with a side-effect-free predicate, two tables that held the same entries in different
+internal orders still hold the same entries (every lookup agrees). -/
+theorem c05_reviewed_retain_pure_order_free {κ ν : Type} [DecidableEq κ] (keep : κ × ν → Bool)
+    (l₁ l₂ : List (κ × ν)) (p : l₁.Perm l₂) (h : NodupKeys l₁) (k : κ) :
+    lookup k (l₁.filter keep) = lookup k (l₂.filter keep) := by
+  apply lookup_perm (p.filter keep)
+  unfold NodupKeys at *
+  exact List.Nodup.sublist (List.Sublist.map _ List.filter_sublist) h
+
+example : NodupKeys [((1 : Nat), (10 : Nat)), (2, 20)] := by unfold NodupKeys; decide
+
+/-- The table is not empty, and the hypothesis of `c05_no_order_exposure` is met by most rows. -/
+example : Gen.hashUses.length > 40 := by decide +kernel
+example : (Gen.hashUses.filter fun u => u.hasher == .std).length > 40 := by decide +kernel
+example : (Gen.hashUses.filter fun u => u.hasher == .std && !orderFree u.op).length = 2 := by decide +kernel
 
 /-- **Traces** (clause "same input and clock trace ⇒ identical states, outputs, faults, events at
 every cycle").  If one cycle does not depend on the environment (process, hash seed, layout, wall
@@ -177,6 +232,17 @@ theorem c05_trace_env_free {ε σ ι ω : Type} (step : ε → σ → ι → σ 
 
 example : ∀ e₁ e₂ (s i : Nat), (fun (_ : Bool) (s i : Nat) => (s + i, s * i)) e₁ s i =
     (fun (_ : Bool) (s i : Nat) => (s + i, s * i)) e₂ s i := fun _ _ _ _ => rfl
+
+/-- Instance for the scheduler model of C06 (`cycle.rs`): one scheduling cycle is a function of
+(task states, SINGLE values, `now`) and of nothing else, hence every run of the scheduler model on
+the same clock/input trace produces the same sequence of executed tasks, programs and overrun
+events whatever environment `ε` each cycle runs in.  (For a Lean function this is true by
+construction; the statement records that the model has no hidden input.) -/
+theorem c05_scheduler_trace_env_free {ε : Type} (tasks : List C06.Task) (nprogs : Nat)
+    (env₁ env₂ : Nat → ε) (sts : List C06.TState) (inputs : List ((Nat → Bool) × Int)) :
+    trace (fun (_ : ε) st (i : (Nat → Bool) × Int) => C06.cycle tasks nprogs st i.1 i.2) env₁ 0 sts inputs =
+    trace (fun (_ : ε) st (i : (Nat → Bool) × Int) => C06.cycle tasks nprogs st i.1 i.2) env₂ 0 sts inputs :=
+  c05_trace_env_free _ (fun _ _ _ _ => rfl) inputs env₁ env₂ 0 0 sts
 
 /-- The executable oracle `agree`, which the driver applies to the observations of the parent and
 child processes, is the property's quantifier "for all pairs of processes (r1, r2)". -/
